@@ -80,7 +80,7 @@ Qed.
 Definition permitted (srv : server) (ev : event) : Prop :=
   match ev with
   | Dial _ _ => allow (srule srv) 1 = true
-  | ListenUDP => allow (srule srv) 3 = true
+  | ListenUDP _ _ => allow (srule srv) 3 = true
   | _ => True
   end.
 
@@ -245,7 +245,7 @@ Section Prov.
     serve srv e inp = (evs, fin) -> evs = pre ++ ev :: post -> outbound ev = true ->
     (credentials c <> [] -> exists u p, In (AuthOK u p) pre /\ configured_cred c u p) /\
     (forall ip port, ev = Dial ip port -> cmd_enabled c 1) /\
-    (ev = ListenUDP -> cmd_enabled c 3).
+    (forall ip port, ev = ListenUDP ip port -> cmd_enabled c 3).
   Proof.
     intros Hprov Hserve Hevs0 Hout. subst evs. unfold serve in Hserve.
     destruct (negotiate srv inp) as [ev1 [rest|]] eqn:En.
@@ -261,7 +261,7 @@ Section Prov.
         * rewrite Hm in Hin. destruct Hin as [Hin|[]]. inversion Hin; subst store.
           exists u, p. split; [rewrite Hpre; apply in_or_app; left; exact Hau|]. eapply valid_configured; eauto.
       + intros ip port ->. cbn in Hperm. eapply provision_rule; eauto.
-      + intros ->. cbn in Hperm. eapply provision_rule; eauto.
+      + intros ip port ->. cbn in Hperm. eapply provision_rule; eauto.
     - injection Hserve as Hevs Hfin. exfalso.
       pose proof (negotiate_quiet _ _ _ _ En ev) as Hq.
       assert (In ev ev1) as Hin by (rewrite Hevs; apply in_or_app; right; left; reflexivity).
@@ -398,7 +398,7 @@ Lemma dispatch_relay srv e cmd ip port rest evs fin :
   dispatch srv e cmd ip port rest = (evs, fin) ->
   match fin with
   | EProxy r => In (Dial ip port) evs /\ r = rest
-  | EAssoc => In ListenUDP evs
+  | EAssoc => exists dip, In (ListenUDP dip port) evs
   | _ => True
   end.
 Proof.
@@ -407,21 +407,21 @@ Proof.
   destruct (cmd =? 1)%Z.
   { destruct (dial e ip port); inversion H; subst; cbn; auto. }
   destruct (cmd =? 2)%Z; [inversion H; subst; exact I|].
-  destruct (listen_udp e); inversion H; subst; cbn; auto.
+  destruct (listen_udp e); inversion H; subst; cbn; eauto.
 Qed.
 
 Lemma relay_needs_outbound srv e inp evs fin :
   serve srv e inp = (evs, fin) ->
   match fin with
   | EProxy _ => exists ip port, In (Dial ip port) evs
-  | EAssoc => In ListenUDP evs
+  | EAssoc => exists ip port, In (ListenUDP ip port) evs
   | _ => True
   end.
 Proof.
   unfold serve. intro H.
   destruct (negotiate srv inp) as [ev1 [rest|]] eqn:En; [|injection H as _ <-; exact I].
   destruct (request srv e rest) as [ev2 fin2] eqn:Er. injection H as Hevs Hfin. subst evs fin2.
-  assert (Hreq : match fin with EProxy _ => exists ip port, In (Dial ip port) ev2 | EAssoc => In ListenUDP ev2 | _ => True end).
+  assert (Hreq : match fin with EProxy _ => exists ip port, In (Dial ip port) ev2 | EAssoc => exists ip port, In (ListenUDP ip port) ev2 | _ => True end).
   { clear En. unfold request in Er.
     destruct rest as [|ver [|cmdb r1]]; try (inversion Er; subst; exact I).
     destruct (negb (zb ver =? 5)%Z); [inversion Er; subst; exact I|].
@@ -429,24 +429,24 @@ Proof.
     destruct (zb atyp =? 1)%Z.
     { destruct (read_full 6 r2) as [[a r3]|]; [|inversion Er; subst; exact I].
       destruct (negb (known_cmd (zb cmdb))); [inversion Er; subst; exact I|].
-      pose proof (dispatch_relay _ _ _ _ _ _ _ _ Er) as Hd. destruct fin; auto. destruct Hd; eauto. }
+      pose proof (dispatch_relay _ _ _ _ _ _ _ _ Er) as Hd. destruct fin; auto; [destruct Hd; eauto|destruct Hd; eauto]. }
     destruct (zb atyp =? 4)%Z.
     { destruct (read_full 18 r2) as [[a r3]|]; [|inversion Er; subst; exact I].
       destruct (negb (known_cmd (zb cmdb))); [inversion Er; subst; exact I|].
-      pose proof (dispatch_relay _ _ _ _ _ _ _ _ Er) as Hd. destruct fin; auto. destruct Hd; eauto. }
+      pose proof (dispatch_relay _ _ _ _ _ _ _ _ Er) as Hd. destruct fin; auto; [destruct Hd; eauto|destruct Hd; eauto]. }
     destruct (zb atyp =? 3)%Z; [|inversion Er; subst; exact I].
     destruct r2 as [|dl r2']; [inversion Er; subst; exact I|].
     destruct (read_full (nat_of_byte dl + 2) r2') as [[a r3]|]; [|inversion Er; subst; exact I].
     destruct (negb (known_cmd (zb cmdb))); [inversion Er; subst; exact I|].
     destruct (firstn (nat_of_byte dl) a) as [|f0 fq] eqn:Ef.
-    - pose proof (dispatch_relay _ _ _ _ _ _ _ _ Er) as Hd. destruct fin; auto. destruct Hd; eauto.
+    - pose proof (dispatch_relay _ _ _ _ _ _ _ _ Er) as Hd. destruct fin; auto; [destruct Hd; eauto|destruct Hd; eauto].
     - destruct (resolve e (f0 :: fq)) as [ip|]; [|inversion Er; subst; exact I].
       destruct (dispatch srv e (zb cmdb) ip (port_of (skipn (nat_of_byte dl) a)) r3) as [ev3 fin3] eqn:Ed.
       inversion Er; subst. pose proof (dispatch_relay _ _ _ _ _ _ _ _ Ed) as Hd.
-      destruct fin; auto; [destruct Hd; exists ip; eexists; right; eauto|right; exact Hd]. }
+      destruct fin; auto; [destruct Hd; exists ip; eexists; right; eauto|destruct Hd as [dip Hd]; exists dip; eexists; right; exact Hd]. }
   destruct fin; auto.
   - destruct Hreq as (ip & port & Hin). exists ip, port. apply in_or_app; right; exact Hin.
-  - apply in_or_app; right; exact Hreq.
+  - destruct Hreq as (ip & port & Hin). exists ip, port. apply in_or_app; right; exact Hin.
 Qed.
 
 (* ------------------------------------------------------------------ no fallback to "no authentication" *)
@@ -475,4 +475,158 @@ Proof.
   cbn [select_auth] in H. destruct (existsb _ methods).
   - destruct (userpass_first_out _ _ _ _ H) as [tl [-> Hn]]. intros [Heq|Hin]; [discriminate|contradiction].
   - inversion H; subst. intro Hin. in_cases Hin. discriminate.
+Qed.
+
+(* ------------------------------------------------------------------ how the request phase ends *)
+(* either nothing is written (truncated message or wrong version: the connection is just closed),
+   or the last thing written is a failure reply and nothing is relayed, or it is a success reply *)
+Lemma dispatch_ends srv e cmd ip port rest evs fin :
+  dispatch srv e cmd ip port rest = (evs, fin) ->
+  (exists pre c, evs = pre ++ [Out (reply_fail c)] /\ (fin = EErr \/ fin = EDone)) \/
+  (exists pre v6, evs = pre ++ [Out (reply_ok v6)] /\ ((exists r, fin = EProxy r) \/ fin = EAssoc)).
+Proof.
+  unfold dispatch. intro H.
+  destruct (negb (allow (srule srv) cmd)); [inversion H; subst; left; exists [], x02; auto|].
+  destruct (cmd =? 1)%Z.
+  { destruct (dial e ip port) as [v6| | |]; inversion H; subst.
+    - right. exists [Dial ip port], v6. split; [reflexivity|left; eauto].
+    - left. exists [Dial ip port], x05. auto.
+    - left. exists [Dial ip port], x03. auto.
+    - left. exists [Dial ip port], x04. auto. }
+  destruct (cmd =? 2)%Z; [inversion H; subst; left; exists [], x07; auto|].
+  destruct (listen_udp e) as [v6|]; inversion H; subst.
+  - right. exists [ListenUDP (pin_source (client_ip e) ip) port], v6. auto.
+  - left. exists [ListenUDP (pin_source (client_ip e) ip) port], x01. auto.
+Qed.
+
+Lemma request_ends srv e inp evs fin :
+  request srv e inp = (evs, fin) ->
+  (evs = [] /\ fin = EErr) \/
+  (exists pre c, evs = pre ++ [Out (reply_fail c)] /\ (fin = EErr \/ fin = EDone)) \/
+  (exists pre v6, evs = pre ++ [Out (reply_ok v6)] /\ ((exists r, fin = EProxy r) \/ fin = EAssoc)).
+Proof.
+  unfold request. intro H.
+  destruct inp as [|ver [|cmdb r1]]; try (inversion H; subst; left; auto; fail).
+  destruct (negb (zb ver =? 5)%Z); [inversion H; subst; left; auto|].
+  destruct r1 as [|rsv [|atyp r2]]; try (inversion H; subst; left; auto; fail).
+  destruct (zb atyp =? 1)%Z.
+  { destruct (read_full 6 r2) as [[a r3]|]; [|inversion H; subst; left; auto].
+    destruct (negb (known_cmd (zb cmdb))); [inversion H; subst; right; left; exists [], x07; auto|].
+    right. eapply dispatch_ends; eauto. }
+  destruct (zb atyp =? 4)%Z.
+  { destruct (read_full 18 r2) as [[a r3]|]; [|inversion H; subst; left; auto].
+    destruct (negb (known_cmd (zb cmdb))); [inversion H; subst; right; left; exists [], x07; auto|].
+    right. eapply dispatch_ends; eauto. }
+  destruct (zb atyp =? 3)%Z; [|inversion H; subst; right; left; exists [], x08; auto].
+  destruct r2 as [|dl r2']; [inversion H; subst; left; auto|].
+  destruct (read_full (nat_of_byte dl + 2) r2') as [[a r3]|]; [|inversion H; subst; left; auto].
+  destruct (negb (known_cmd (zb cmdb))); [inversion H; subst; right; left; exists [], x07; auto|].
+  destruct (firstn (nat_of_byte dl) a) as [|f0 fq] eqn:Ef.
+  - right. eapply dispatch_ends; eauto.
+  - destruct (resolve e (f0 :: fq)) as [ip|].
+    + destruct (dispatch srv e (zb cmdb) ip (port_of (skipn (nat_of_byte dl) a)) r3) as [ev2 fin2] eqn:Ed.
+      inversion H; subst. right.
+      destruct (dispatch_ends _ _ _ _ _ _ _ _ Ed) as [(pre & c & -> & Hf)|(pre & v6 & -> & Hf)].
+      * left. exists (Resolve (f0 :: fq) :: pre), c. auto.
+      * right. exists (Resolve (f0 :: fq) :: pre), v6. auto.
+    + inversion H; subst. right; left. exists [Resolve (f0 :: fq)], x04. auto.
+Qed.
+
+(* after a completed negotiation, a complete request (version 5, assigned address type, whole
+   address) for a command the rule set does not allow is answered with a failure reply *)
+Lemma disallowed_is_answered srv e ver cmdb rsv a p1 p2 rest evs fin :
+  zb ver = 5%Z -> allow (srule srv) (zb cmdb) = false ->
+  request srv e (ver :: cmdb :: rsv :: x01 :: a ++ [p1; p2] ++ rest) = (evs, fin) -> length a = 4%nat ->
+  exists c, evs = [Out (reply_fail c)] /\ fin = EErr /\ (c = x02 \/ c = x07).
+Proof.
+  intros Hv Ha H Hl. unfold request in H. rewrite Hv in H. cbn [Z.eqb negb Pos.eqb] in H.
+  change (zb x01 =? 1)%Z with true in H. cbn iota in H.
+  assert (Hrf : read_full 6 (a ++ [p1; p2] ++ rest) = Some (a ++ [p1; p2], rest)).
+  { unfold read_full. rewrite !app_length, Hl. cbn [length Nat.add Nat.ltb Nat.leb].
+    replace (a ++ [p1; p2] ++ rest) with ((a ++ [p1; p2]) ++ rest) by (rewrite <- app_assoc; reflexivity).
+    rewrite firstn_app, skipn_app, app_length, Hl. cbn [length Nat.add Nat.sub].
+    rewrite firstn_all2 by (rewrite app_length, Hl; cbn; lia).
+    rewrite skipn_all2 by (rewrite app_length, Hl; cbn; lia). cbn. rewrite app_nil_r. reflexivity. }
+  rewrite Hrf in H.
+  destruct (known_cmd (zb cmdb)); cbn [negb] in H.
+  - unfold dispatch in H. rewrite Ha in H. cbn [negb] in H. inversion H; subst. exists x02. auto.
+  - inversion H; subst. exists x07. auto.
+Qed.
+
+(* ------------------------------------------------------------------ the UDP relay is pinned to one source address *)
+Definition good_ip (ip : bytes) : Prop := ip <> [] /\ ip_unspecified ip = false.
+
+Lemma pin_source_good cip ip : good_ip cip -> good_ip (pin_source (Some cip) ip).
+Proof.
+  intros [Hne Hun]. unfold pin_source.
+  destruct (length ip =? 0)%nat eqn:El; cbn [negb andb].
+  - destruct (length cip =? 0)%nat eqn:Ec; cbn [orb].
+    + apply Nat.eqb_eq in Ec. destruct cip; [contradiction|discriminate].
+    + rewrite Hun. split; assumption.
+  - destruct (ip_unspecified ip) eqn:Eu; cbn [negb].
+    + destruct (length cip =? 0)%nat eqn:Ec; cbn [orb].
+      * apply Nat.eqb_eq in Ec. destruct cip; [contradiction|discriminate].
+      * rewrite Hun. split; assumption.
+    + split; [|exact Eu]. intros ->. discriminate.
+Qed.
+
+Lemma dispatch_listen srv e cmd ip port rest evs fin cip dip dport :
+  dispatch srv e cmd ip port rest = (evs, fin) -> client_ip e = Some cip -> good_ip cip ->
+  In (ListenUDP dip dport) evs -> good_ip dip.
+Proof.
+  unfold dispatch. intros H Hc Hg Hin.
+  destruct (negb (allow (srule srv) cmd)); [inversion H; subst; in_cases Hin; discriminate|].
+  destruct (cmd =? 1)%Z.
+  { destruct (dial e ip port); inversion H; subst; in_cases Hin; discriminate. }
+  destruct (cmd =? 2)%Z; [inversion H; subst; in_cases Hin; discriminate|].
+  rewrite Hc in H.
+  destruct (listen_udp e); inversion H; subst; in_cases Hin; try discriminate; inversion Hin; subst; apply pin_source_good; exact Hg.
+Qed.
+
+Lemma request_listen srv e inp evs fin cip dip dport :
+  request srv e inp = (evs, fin) -> client_ip e = Some cip -> good_ip cip ->
+  In (ListenUDP dip dport) evs -> good_ip dip.
+Proof.
+  unfold request. intros H Hc Hg Hin.
+  destruct inp as [|ver [|cmdb r1]]; try (inversion H; subst; destruct Hin; fail).
+  destruct (negb (zb ver =? 5)%Z); [inversion H; subst; destruct Hin|].
+  destruct r1 as [|rsv [|atyp r2]]; try (inversion H; subst; destruct Hin; fail).
+  destruct (zb atyp =? 1)%Z.
+  { destruct (read_full 6 r2) as [[a r3]|]; [|inversion H; subst; destruct Hin].
+    destruct (negb (known_cmd (zb cmdb))); [inversion H; subst; in_cases Hin; discriminate|].
+    eapply dispatch_listen; eauto. }
+  destruct (zb atyp =? 4)%Z.
+  { destruct (read_full 18 r2) as [[a r3]|]; [|inversion H; subst; destruct Hin].
+    destruct (negb (known_cmd (zb cmdb))); [inversion H; subst; in_cases Hin; discriminate|].
+    eapply dispatch_listen; eauto. }
+  destruct (zb atyp =? 3)%Z; [|inversion H; subst; in_cases Hin; discriminate].
+  destruct r2 as [|dl r2']; [inversion H; subst; destruct Hin|].
+  destruct (read_full (nat_of_byte dl + 2) r2') as [[a r3]|]; [|inversion H; subst; destruct Hin].
+  destruct (negb (known_cmd (zb cmdb))); [inversion H; subst; in_cases Hin; discriminate|].
+  destruct (firstn (nat_of_byte dl) a) as [|f0 fq] eqn:Ef.
+  - eapply dispatch_listen; eauto.
+  - destruct (resolve e (f0 :: fq)) as [ip|].
+    + destruct (dispatch srv e (zb cmdb) ip (port_of (skipn (nat_of_byte dl) a)) r3) as [ev2 fin2] eqn:Ed.
+      inversion H; subst. destruct Hin as [Hin|Hin]; [discriminate|]. eapply dispatch_listen; eauto.
+    + inversion H; subst. in_cases Hin; discriminate.
+Qed.
+
+(* whenever the client's IP is known, a relay never accepts every source: a datagram is forwarded
+   only if it comes from the one IP the association is pinned to (the client's own, or the one
+   the authenticated client announced explicitly) *)
+Lemma udp_relay_source_pinned srv e inp evs fin cip dip dport sip sport :
+  client_ip e = Some cip -> cip <> [] -> ip_unspecified cip = false ->
+  serve srv e inp = (evs, fin) -> In (ListenUDP dip dport) evs ->
+  relay_accepts dip dport sip sport = true ->
+  ip_unspecified dip = false /\ ip_equal dip sip = true.
+Proof.
+  intros Hc Hne Hun Hserve Hin Hacc. unfold serve in Hserve.
+  destruct (negotiate srv inp) as [ev1 [rest|]] eqn:En.
+  - destruct (request srv e rest) as [ev2 fin2] eqn:Er. injection Hserve as Hevs Hfin. subst evs.
+    apply in_app_or in Hin. destruct Hin as [Hin|Hin].
+    + destruct (negotiate_quiet _ _ _ _ En _ Hin) as [Ho _]. discriminate.
+    + destruct (request_listen _ _ _ _ _ _ _ _ Er Hc (conj Hne Hun) Hin) as [_ Hd].
+      split; [exact Hd|]. unfold relay_accepts in Hacc. rewrite Hd in Hacc. cbn [orb] in Hacc.
+      apply andb_true_iff in Hacc. apply Hacc.
+  - injection Hserve as Hevs Hfin. subst evs. destruct (negotiate_quiet _ _ _ _ En _ Hin) as [Ho _]. discriminate.
 Qed.
